@@ -14,6 +14,7 @@ import (
 type verdict struct {
 	parsed     bool
 	compiledOK bool
+	okAfter    bool   // validation verdict of the formatted text
 	kind       string // "" = property holds; otherwise the failing clause
 	detail     string
 	out        string
@@ -56,6 +57,7 @@ func check(text string) verdict {
 		return v
 	}
 	c2, r2 := config.Compile(cfg2)
+	v.okAfter = r2.OK
 	if d := resultDiff(r1, r2); d != "" {
 		v.kind, v.detail = "meaning", "validation result differs: "+d
 	} else if !reflect.DeepEqual(c1, c2) {
